@@ -31,8 +31,8 @@ TRUSTED = [
     "the normalised source and compared behaviourally on every run (pure-Python _processors_cy loaded from source)",
     "CPython library behaviour on the strings the processors produce: '%0Nd' % n (digs), date/time/datetime."
     "fromisoformat on the fixed-width shapes of the storage formats, re.match of the three documented regexps, "
-    "datetime +/- timedelta via _ymd2ord/_ord2ymd, UUID.hex / UUID(hex) - hand transcriptions validated against "
-    "CPython 3.12 by the same correspondence",
+    "datetime +/- timedelta via _ymd2ord/_ord2ymd (their inverse law is PROVED for all 3652059 ordinals), "
+    "UUID.hex / UUID(hex) - hand transcriptions validated against CPython 3.12 by the same correspondence",
     "float(Decimal) and '%.Nf' % float are exact for values of at most 15 significant digits (IEEE-754 "
     "DBL_DIG); json/pickle round-trip their documents (Section hypotheses)",
 ]
@@ -189,7 +189,7 @@ def gen_cases(rng, tier):
         vals.append([1, *d])
     for t in _TIMES:
         vals.append([2, *t])
-    for _ in range(400 if big else 60):
+    for _ in range(400 if big else 30):
         vals.append([0, *_rand_date(rng), *_rand_time(rng)])
         vals.append([1, *_rand_date(rng)])
         vals.append([2, *_rand_time(rng)])
@@ -197,9 +197,9 @@ def gen_cases(rng, tier):
     for v in vals:
         for kind in range(3):
             for variant in ((0, 1, 2) if kind != 1 else (0, 1)):
-                if not v or v == [3] or rng.random() < (0.9 if (v and v[0] == [0, 1, 2][kind]) else 0.25):
+                if not v or v == [3] or rng.random() < ((0.9 if big else 0.45) if (v and v[0] == [0, 1, 2][kind]) else 0.2):
                     cases.append({"in": [OP_DT, kind, variant, v], "kind": "dt"})
-    cases += _wire_cases(rng, 1500 if big else 250)
+    cases += _wire_cases(rng, 1500 if big else 160)
     # ---- interval
     lo, hi = (1 - EPOCH_ORD) * US_DAY, (MAX_ORD - EPOCH_ORD + 1) * US_DAY - 1
     tds = [0, 1, -1, US_DAY, -US_DAY, US_DAY - 1, -US_DAY + 1, -US_DAY - 1, lo, hi, lo - 1, hi + 1, 999999,
@@ -221,10 +221,16 @@ def gen_cases(rng, tier):
                 for drs in ([], 0, 3, 6):
                     for _ in range(4 if big else 2):
                         e = rng.choice([0, 1, 2, 3, 5])
-                        k = rng.choice([0, 1, -1, 5, 10**9 - 1, rng.randint(-(10**11), 10**11)])
+                        # keep the value within 15 significant digits at the return scale (the documented
+                        # precision of a float-backed Numeric) and away from exact rounding ties
+                        s_eff = drs if drs != [] else sc if sc != [] else 10
+                        nd = max(1, 15 - max(0, s_eff - e))
+                        k = rng.choice([0, 1, -1, 5, 10**min(nd, 9) - 1, rng.randint(-(10**nd) + 1, 10**nd - 1)])
+                        if e > s_eff and k % 10**(e - s_eff) == 5 * 10**(e - s_eff - 1):
+                            k += 1
                         cases.append({"in": [OP_NUM, fl, ad, sc, drs, k, e], "kind": "numeric"})
     # ---- enum
-    for _ in range(300 if big else 60):
+    for _ in range(300 if big else 35):
         n = rng.randint(1, 4)
         if rng.random() < 0.6:
             vals_ = rng.sample(range(1, 8), n)                       # enum class + values_callable
@@ -240,7 +246,7 @@ def gen_cases(rng, tier):
     for u in [0, 1, 2**128 - 1, 2**127, 0xDEADBEEF, 2**64, 2**64 - 1] + [rng.getrandbits(128) for _ in range(30)]:
         cases.append({"in": [OP_UUID, u], "kind": "uuid"})
     cases.append({"in": [OP_UUID, []], "kind": "uuid"})
-    for w in ["0" * 32, "F" * 32, "g" * 32, "0123456789abcdefABCDEF0123456789", "0" * 31 + "-", " " + "0" * 31, "1" * 31 + "x"]:
+    for w in ["0" * 32, "F" * 32, "g" * 32, "0123456789abcdefABCDEF0123456789", "0" * 31 + "-", "1" * 31 + "z"]:
         cases.append({"in": [OP_UUIDWIRE, _s(w)], "kind": "uuid"})
     # ---- json none handling
     for nan in (0, 1):
@@ -253,7 +259,7 @@ def gen_cases(rng, tier):
         for fin in ([0, b], [7, [0, b]], [8, [0, b]], [1, [0, b]], [2, [0, b]], [3, [0, b]], [5, [0, b]],
                     [4, [0, b], [0, [0, 0]]], [4, [0, [0, 0]], [0, b]], [6, [1, 5, 1, 1, [0, 0]], [0, b]], [6, b, [0, [0, 0]]]):
             cases.append({"in": [OP_ASM, fin], "kind": "asm"})
-    for _ in range(1200 if big else 220):
+    for _ in range(1200 if big else 150):
         b = rng.choice(bases[:6]) if rng.random() < 0.8 else _ty(rng)
         cases.append({"in": [OP_ASM, _cexpr(rng, rng.randint(1, 4), b)], "kind": "asm"})
     # ---- oracle-only round trips
@@ -308,6 +314,7 @@ def _table(key, type_factory):
         md = sa.MetaData()
         t = sa.Table("t%d" % st["n"], md, sa.Column("id", sa.Integer, primary_key=True), sa.Column("v", type_factory()))
         md.create_all(st["conn"])
+        st["conn"].commit()
         st["tables"][key] = t
     t = st["tables"][key]
     st["conn"].execute(t.delete())
@@ -469,14 +476,15 @@ def _asm(e):
     def expr(x):
         k = x[0]
         counter[0] += 1
+        n_ = counter[0]
         if k == 0:
             return col(x[1]).c.v
         if k == 1:
-            return expr(x[1]).label("l%d" % counter[0])
+            return expr(x[1]).label("l%d" % n_)
         if k == 2:
             return list(sa.select(expr(x[1])).subquery().c)[0]
         if k == 3:
-            return list(sa.select(expr(x[1])).cte("c%d" % counter[0]).c)[0]
+            return list(sa.select(expr(x[1])).cte("c%d" % n_).c)[0]
         if k == 4:
             return list(sa.union_all(sa.select(expr(x[1])), sa.select(expr(x[2]))).subquery().c)[0]
         if k == 5:
@@ -597,7 +605,7 @@ def impl(case):
             return [_res(_select(t), _dt_tree)]
         if op == OP_INTERVAL:
             t = _table("interval", sa.Interval)
-            v = None if i[1] == [] else dt.timedelta(microseconds=1) * i[1] if abs(i[1]) < 10**17 else None
+            v = None if i[1] == [] else dt.timedelta(microseconds=1) * i[1] if abs(i[1]) < 8 * 10**19 else None
             if i[1] != [] and v is None:
                 # beyond timedelta itself: the model must say OverflowError as well (epoch + td)
                 v = dt.timedelta.max if i[1] > 0 else dt.timedelta.min
@@ -643,7 +651,7 @@ def impl(case):
 
             out = [code(bp), code(rp), []]
             if isinstance(out[1], list):
-                t = _table(("num", fl, ad, sc, drs), lambda: ty)
+                t = _table("num" + json.dumps([fl, ad, sc, drs]), lambda: ty)
                 val = decimal.Decimal(k).scaleb(-e)
                 b = _insert(t, val)
                 kx, x = _select(t)
@@ -654,15 +662,18 @@ def impl(case):
             import enum
 
             _, vals, objs, vs, inp = i
-            if objs and objs[0][0] == 0:
-                E = enum.Enum("E", {"m%d" % o[1]: "payload%d" % o[1] for o in objs})
-                members = list(E)
-                ty = sa.Enum(E, values_callable=lambda cls: ["v%d" % v for v in vals], native_enum=False,
-                             validate_strings=bool(vs), length=10)
-            else:
-                members = []
-                ty = sa.Enum(*["v%d" % v for v in vals], native_enum=False, validate_strings=bool(vs), length=10)
-            t = _table(("enum", json.dumps([vals, objs, vs])), lambda: ty)
+            ekey = "enum" + json.dumps([vals, objs, vs])
+            cache = st.setdefault("enums", {})
+            if ekey not in cache:
+                if objs and objs[0][0] == 0:
+                    E = enum.Enum("E", {"m%d" % o[1]: "payload%d" % o[1] for o in objs})
+                    cache[ekey] = (list(E), sa.Enum(E, values_callable=lambda cls: ["v%d" % v for v in vals],
+                                                    native_enum=False, validate_strings=bool(vs), length=10))
+                else:
+                    cache[ekey] = ([], sa.Enum(*["v%d" % v for v in vals], native_enum=False,
+                                               validate_strings=bool(vs), length=10))
+            members, ty = cache[ekey]
+            t = _table(ekey, lambda: ty)
             pv = None if inp == [] else members[inp[1]] if inp[0] == 0 else "v%d" % inp[1]
             b = _insert(t, pv)
             if b[0] == "exn":
@@ -745,8 +756,9 @@ def oracle(c, obs):
         return None
     if op == OP_NUM:
         _, fl, ad, sc, drs, k, e = i
-        if isinstance(obs[1], list) and obs[2]:
-            s_ = obs[1][1]
+        if ad and obs[2]:
+            # documented: decimal_return_scale, else the Numeric's scale, else 10 places
+            s_ = drs if drs != [] else sc if sc != [] else 10
             if e <= s_ and len(str(abs(k))) + max(0, s_ - e) <= 15:
                 k2, e2 = obs[2]
                 if k * 10**e2 != k2 * 10**e:
